@@ -20,6 +20,7 @@ func TestC04(t *testing.T) {
 	r.Assume("policies satisfy ExpireKeyAfter >= 2*CreateDatePrecision (a key whose truncated birth stamp is already older than its lifetime is excluded)", "metastore accepts writes (no faults injected here)")
 	runMany(t, r, ev.Pick(150, 3000), Params{Oracles: OC04, Steps: ev.Pick(120, 400), MaxFacts: 3, ClockBias: 45, RevokeBias: 3, Parts: []string{"p0", "p1", "p2"}, NoCacheFrac: 10}, 4)
 	matrixC04(t, r)
+	f11C04(t, r)
 	r.Finish(t)
 }
 
